@@ -48,3 +48,11 @@ pub fn panics(v: &[u32], o: Option<u32>) -> u32 {
     }
     v[0] + o.unwrap()
 }
+
+/// memoised validation walk whose memo key omits an input of the skipped work (C03 R03-j must report `vars` uncovered)
+pub fn memo_walk(seen: &std::cell::RefCell<HashSet<String>>, name: &str, vars: &[u32], out: &mut Vec<u32>) {
+    if !seen.borrow_mut().insert(name.to_string()) {
+        return;
+    }
+    out.extend(vars.iter().copied());
+}
